@@ -257,6 +257,16 @@ pub fn run(op: &str, job: &J) -> Option<R<J>> {
                 let g = job["groups"].as_f64().unwrap_or(1.0);
                 guarded(|| json!({"ok": {"gaussian_noise": gaussian_noise(e, d, s), "gaussian_noise_multiplier": gaussian_noise_multiplier(e, d), "gaussian_tau": gaussian_tau(e, d, g)}}))
             }
+            "dp_split" => {
+                use qrlew::differential_privacy::aggregates::DpAggregatesParameters;
+                let e = job["epsilon"].as_f64().ok_or("epsilon")?;
+                let d = job["delta"].as_f64().ok_or("delta")?;
+                let n = job["n"].as_u64().ok_or("n")? as usize;
+                guarded(|| {
+                    let p = DpAggregatesParameters::new(e, d, 100, false, 1.0, 1.0).split(n);
+                    json!({"ok": {"epsilon": p.epsilon, "delta": p.delta}})
+                })
+            }
             _ => return Err(format!("unknown op {op}")),
         })
     })())
